@@ -43,7 +43,10 @@ def prescribe(ctx, jobs, fuel=20000, timeout=1500, workers=None):
     jf = os.path.join(ctx.scratch, "jobs.%d.ndjson" % len(ctx.tlc_runs))
     with open(jf, "w") as f:
         for j in jobs:
-            f.write(json.dumps(j) + "\n")
+            line = json.dumps(j)
+            if "null" in line and ": null" in line or "[null" in line or ", null" in line:
+                raise InfraError("job %s contains a null (malformed abstract syntax)" % j["id"])
+            f.write(line + "\n")
     r = tlc(ctx, "NanoSemRun", env={"NANOSEM_JOBS": jf}, xss="900m", timeout=timeout, workers=workers,
             constants={"Fuel": str(fuel)})
     if r.violated:
